@@ -75,8 +75,12 @@ public:
         // We could use a queue and use a `while(!empty) { pop_front() }` loop instead to avoid this.
         // However, we would then ideally use a ring-buffer to avoid excessive allocations, which isn't in the STL.
         try {
-            for (auto &pair : m_deferredSlotInvocations) {
-                pair.second();
+            // A slot may emit a deferred signal connected to this evaluator, which appends to
+            // m_deferredSlotInvocations (and may reallocate it) while we iterate: iterate by
+            // index and call a copy, so that such invocations are run by this evaluation as well.
+            for (size_t i = 0; i < m_deferredSlotInvocations.size(); ++i) {
+                const auto invocation = m_deferredSlotInvocations[i].second;
+                invocation();
             }
         } catch (...) {
             // Best-effort: Reset the ConnectionEvaluator so that it at least doesn't execute the same erroneous slot multiple times.
